@@ -67,7 +67,8 @@ def run_case(c):
     if any(op.get("cmds_range", [0, 0, 0])[1] > 1000 for op in c["ops"]):
         # a 65 537-command schedule: seconds on an idle machine; the harness's per-case alarm (a backstop --
         # a loop that never ends is normally caught by the script running out of selects) is extended
-        signal.alarm(600)
+        signal.setitimer(signal.ITIMER_PROF, 300)     # the per-case limit is CPU time (implutil.run_cases)
+        signal.alarm(2400)
     net = scpsim.Net(make_policy(c["policy"]))
     net.buffer_size = bs = c.get("buffer_size", 256)
     restore = net.install(scp_connection)
